@@ -58,7 +58,9 @@ def rotation(ctx):
             sig = res[1]
             c, s = float(np.cos(np.radians(theta))), float(np.sin(np.radians(theta)))
             ctx.corr('combine_at_angle', f"c18.combine|{w_rat(c)}|{w_rat(s)}|{w_rats(ns)}|{w_rats(we)}", ('ok', np.array(sig.values)),
-                     lambda outs, val: cmp_seq(ctx, 'combine_at_angle', list(val), p_rats(outs[0]), False, Fraction(1, 10**12)), inputs=inputs)
+                     # budget relative to the size of the TERMS ns*cos, we*sin (not of their sum, which cancels for ns = -we at 45 degrees)
+                     lambda outs, val, sc=fr(float(max(np.max(np.abs(ns)), np.max(np.abs(we)), 1e-300))): cmp_budget(list(val), p_rats(outs[0]), Fraction(1, 10**12), scale=sc)[0],
+                     inputs=inputs)
             ctx.oracle('C18.a combine_at_angle returns an AccSignal with the components\' time step and length',
                        isinstance(sig, eqsig.AccSignal) and sig.dt == dt and sig.npts == n, inputs)
             want = ns * math.cos(math.radians(theta)) + we * math.sin(math.radians(theta))
